@@ -74,6 +74,9 @@ def gen_instance(rng, solver):
                              for _ in cfg['Ls']]
         cfg['random'] = rng.random() < 0.5
         cfg['callback_loop'] = rng.choice(['outer', 'inner'])
+        # the same functional *object* at several positions of g (when the
+        # ranges allow it): per-position data must not be keyed by it
+        cfg['share_g'] = rng.random() < 0.35
     elif solver == 'doubleprox_dc':
         cfg['X'], cfg['L'] = _gen_XL(rng)
         cfg['gamma_frac'] = u(0.2, 0.9)
@@ -226,7 +229,19 @@ class AdUpdates(Instance):
                             'lam': 1.0,
                             'parts': [P.gen_func_for(frng, s, PROX_FAMS)
                                       for s in Y]}
-            gi, gc = _func(cfg, key, Y, fams)
+            shared = None
+            if cfg.get('share_g'):
+                for k_ in range(i):
+                    if self.Ls[k_].range == Y and forms[k_] != 'list' and \
+                            form != 'list' and cfg.get('g%d' % k_, {}).get(
+                                'fam') in fams:
+                        shared = k_
+                        break
+            if shared is not None:
+                gi, gc = self.gs[shared], cfg['g%d' % shared]
+                cfg[key] = gc
+            else:
+                gi, gc = _func(cfg, key, Y, fams)
             if form == 'elem' and gc['fam'] not in ('l1', 'l2sq'):
                 form = 'scalar'
             if form == 'list' and gc['fam'] != 'sepsum':
